@@ -60,6 +60,8 @@ func dispatch(cmd string, args []string) int {
 		return cmdMsg(args)
 	case "replay":
 		return cmdReplay(args)
+	case "harness":
+		return cmdHarness(args)
 	case "bootstrap":
 		V, err := LoadVerifier(envOr("VERIF_REPO", "/repo"), envOr("VERIF_DIR", "/verif"))
 		if err != nil {
@@ -209,7 +211,6 @@ func cmdDev(args []string) int {
 	fmt.Println("trusted:", strings.Join(tr, ", "))
 	return rc
 }
-
 
 var _ = ssa.BuilderMode(0)
 
